@@ -11,15 +11,22 @@ RegOps(rg, ops, t) ==
          RegOps(IF o.op = "add" THEN Append(rg, [cb |-> o.cb, delta |-> o.delta, t0 |-> t, fired |-> 0, alive |-> TRUE])
                 ELSE [i \in 1..Len(rg) |-> IF rg[i].cb = o.cb THEN [rg[i] EXCEPT !.alive = FALSE] ELSE rg[i]],
                 Tail(ops), t)
+\* a firing of registration rid at time t.  Periodic registrations live on the grid t0 + k*delta: the k-th
+\* period may be served late when the job thread was busy (slack), periods may even be skipped then, but the
+\* phase is never lost (no drift), no period is served twice, and nothing fires before t0 + delta.
 RegFireS(Script(_), rg, rid, t, slack, lat) ==
     IF rid > Len(rg) THEN [rg |-> rg, bad |-> {"callback of an unknown registration"}]
-    ELSE LET r == rg[rid]   due == r.t0 + (r.fired + 1) * r.delta IN
+    ELSE LET r == rg[rid]
+             k == (t - r.t0) \div r.delta
+             phase == (t - r.t0) % r.delta
+         IN
          IF ~r.alive THEN [rg |-> rg, bad |-> {"callback called after remove_timer() returned or after it returned False"}]
-         ELSE IF t < due THEN [rg |-> rg, bad |-> {"callback called early"}]
-         ELSE IF t > due + lat + slack THEN [rg |-> rg, bad |-> {"callback called late (delayed, suppressed or drifting)"}]
+         ELSE IF k < 1 \/ k <= r.fired THEN [rg |-> rg, bad |-> {"callback called early"}]
+         ELSE IF phase > lat + slack THEN [rg |-> rg, bad |-> {"callback called late (delayed, suppressed or drifting)"}]
+         ELSE IF k > r.fired + 1 /\ (k - r.fired - 1) * r.delta > slack THEN [rg |-> rg, bad |-> {"periods skipped (timer suppressed)"}]
          ELSE LET sc == Script(r.cb)
-                  rg1 == [rg EXCEPT ![rid].fired = @ + 1, ![rid].alive = sc.ret]
-                  rg2 == RegOps(rg1, sc.ops, t)
+                  rg1 == [rg EXCEPT ![rid].fired = k, ![rid].alive = sc.ret]
+                  rg2 == RegOps(rg1, sc.ops, t + sc.busy)
               IN [rg |-> IF sc.ret THEN rg2 ELSE [rg2 EXCEPT ![rid].alive = FALSE], bad |-> {}]
 OverdueS(rg, t, slack, lat) == \E i \in 1..Len(rg) : rg[i].alive /\ rg[i].t0 + (rg[i].fired + 1) * rg[i].delta + lat + slack < t
 
